@@ -293,5 +293,28 @@ pub fn run(rng: &mut Rng, n: usize) {
             o.f(cl);
             emit("interval.ops", &i, &o, &v);
         }
+        // --- the direction enum and the quarter turns built from it: rotating by the directed angle "in the stated
+        // direction" rests on these agreeing about what a direction is
+        {
+            let mut v = Verdict::new();
+            for d in [AngleDir::Cw, AngleDir::Ccw] {
+                let sgn = d.to_sign();
+                v.require(sgn == if matches!(d, AngleDir::Ccw) { 1.0 } else { -1.0 }, "angle_dir.sign_of_direction", || format!("{}", dir_tok(d)));
+                v.require(dir_tok(AngleDir::from_sign(sgn)) == dir_tok(d), "angle_dir.from_sign_inverts_to_sign", || format!("{}", dir_tok(d)));
+                v.require(dir_tok(d.opposite()) != dir_tok(d) && dir_tok(d.opposite().opposite()) == dir_tok(d), "angle_dir.opposite_is_an_involution", || format!("{}", dir_tok(d)));
+                let x = rng.range(1e-3, 5.0) * if rng.chance(0.5) { 1.0 } else { -1.0 };
+                v.require(dir_tok(AngleDir::from_sign(x)) == if x < 0.0 { "cw" } else { "ccw" }, "angle_dir.from_sign_follows_the_sign", || format!("{x}"));
+                let u = Vector2::new(rng.range(-3.0, 3.0), rng.range(-3.0, 3.0) + 1e-3);
+                let q = engeom::geom2::rot90(d) * u;
+                let want = Vector2::new(-u.y, u.x) * sgn;
+                v.require((q - want).norm() <= 1e-12 * (1.0 + u.norm()), "rot90.is_a_quarter_turn_in_the_stated_direction", || format!("{} {u:?} -> {q:?}", dir_tok(d)));
+                let q3 = engeom::geom2::rot270(d) * u;
+                v.require((q3 + want).norm() <= 1e-12 * (1.0 + u.norm()), "rot270.is_three_quarter_turns_in_the_stated_direction", || format!("{} {u:?} -> {q3:?}", dir_tok(d)));
+                // the directed angle from u to its quarter turn in direction d is a quarter turn
+                let da = directed_angle(&u, &q, d);
+                v.require((da - PI / 2.0).abs() <= 1e-9, "directed_angle.to_the_quarter_turn_is_a_quarter_turn", || format!("{} {u:?}: {da}", dir_tok(d)));
+            }
+            emit_oracle_only("angle.dir", &Tok::new(), &Tok::new(), &v);
+        }
     }
 }
